@@ -32,6 +32,10 @@ def generate(rseed, tier='quick'):
     if r.random() < 0.12:
       # unusual but legal input: a constant buffer whose data vector is present and empty
       mdesc['empty_buffer'] = r.choice(['tensor', 'orphan'])
+    if r.random() < 0.3:
+      # metadata entries as the TF converter writes them (last), or, as other exporters and
+      # post-processing tools do, ahead of the tensor buffers
+      mdesc['metadata'] = r.choice(['first', 'last'])
   else:
     mdesc = {'kind': 'corpus', 'name': r.choice(modelgen.CORPUS + EXTRA_CORPUS)}
   spec, _ = modelgen.get_model(mdesc)
@@ -404,6 +408,8 @@ def execute(doc):
     rec.nontrivial = True
     if mdesc.get('empty_buffer'):
       rec.probe('present_but_empty_buffer')
+    if mdesc.get('metadata'):
+      rec.probe('metadata_buffers_' + mdesc['metadata'])
     _probe_int4(rec, small)
     if not structural(rec, step, small, large):
       rec.event(step, 'quantize', 'structural-violation')
